@@ -229,6 +229,13 @@ def check_case(case):
             except Exception as ex:
                 out, okk = repr(ex), False
             r.require(okk, "%s:cell=%s:arg=%s" % (mname, ic, kn), "reduce_cell gives the same cell for a %s argument" % kn, base, out)
+    # the general probe: every container / layout / dtype of the cell, uvw as int / numpy int, positional and by keyword (float32 cells are
+    # processed in single precision and the reduction may then settle on another description: single precision left out)
+    from ..core import variants
+
+    variants(r, "%s:cell=%s:reduce_cell" % (mname, [round(x, 6) for x in cell0]), mod.reduce_cell, [[float(x) for x in cell0], 3], 0, 1e-9, None)
+    variants(r, "%s:cell=%s:reduce_cell" % (mname, [round(x, 6) for x in cell0]), mod.reduce_cell, [[float(x) for x in cell0], 3], 1, 1e-9, None,
+             skip=("float", "np.float64", "0-d array"))
     r.transitions = r.states
     return r
 
